@@ -277,7 +277,8 @@ def _solve_case(case, spl, ps):
         others = [i for i in range(nth) if i != mchg]
         evn["identity_checks"] += 1
         cls.add("%s/mode-independence" % base)
-        if not lo.bits_equal(sols[3][:, others, :], sols[0][:, others, :]):
+        # (up to rounding: the other modes are solved again, possibly through another but equivalent code path)
+        if not (np.all(np.isfinite(sols[3][:, others, :])) and float(np.abs(sols[3][:, others, :] - sols[0][:, others, :]).max()) <= rep_tol):
             return result(VIOL, cls=sorted(cls), events={**ev, **evn}, key="C14:modes-not-independent",
                           what="changing rho in mode index %d changed the solution of another mode" % mchg, witness=wit)
     return result(HELD, cls=sorted(cls), events={**ev, **evn}, n_eval=evn["profiles_compared"])
